@@ -38,6 +38,9 @@ def check(chk, fx):
     rej3(chk, fx)
     rej4(chk, fx)
     rej5(chk, fx)
+    from .. import golden, goldenreg
+    golden.group(chk, fx, "REGEXFE", "reference summaries of the regex front end (what the pattern lexer accepts, how "
+                                     "characters are decoded)", goldenreg.GROUPS["REGEXFE"])
 
 
 def _optional_paths(chk, f, rule, name):
